@@ -552,3 +552,321 @@ def run(ctx) -> None:  # noqa: F811
                          lambda: dplimits.check_angular_limits(ctx, "R-LIMITS", repo),
                          lambda: dplimits.check_angular_coordinates(ctx, "R-LIMITS", repo),
                          lambda: _grad_inverse(ctx, repo), lambda: _drop_axes(ctx, repo)], _inner_run_c40d)
+
+
+# ---- added after the seeded change C40-r6seed3: the dtype the coordinate vectors (and everything computed from them)
+# ---- are cast to
+_inner_run_c40e = run
+
+_FLOAT_NAMES = {"float", "float16", "float32", "float64", "float128", "longdouble", "double", "single", "half",
+                "float_", "complex", "complex64", "complex128", "complex256", "cfloat", "cdouble", "csingle",
+                "complex_", "clongdouble", "floating", "inexact"}
+_INT_NAMES = {"int", "int8", "int16", "int32", "int64", "uint", "uint8", "uint16", "uint32", "uint64", "bool",
+              "bool_", "intp", "uintp", "intc", "uintc", "long", "ulong", "longlong", "ulonglong", "short", "ushort",
+              "byte", "ubyte", "int_", "integer", "signedinteger", "unsignedinteger",
+              "i1", "i2", "i4", "i8", "u1", "u2", "u4", "u8", "i", "u", "b", "?"}
+_FLOAT_CODES = {"f", "d", "g", "e", "f2", "f4", "f8", "f16", "c8", "c16", "c32", "F", "D", "G"}
+_AS_ARRAY = {"asarray", "array", "asanyarray", "ascontiguousarray", "asfortranarray"}
+_DECLARING = {"map_blocks", "map_overlap", "blockwise", "from_delayed", "from_array", "map_partitions"}
+_PROMOTING = {"result_type", "promote_types", "find_common_type", "common_type"}
+_ARRAY_ATTRS = {"self.array", "self._array"}
+
+
+class _CoordDtype:
+    """Where the dtype of a cast comes from and what the cast operand is made of, inside one function of the
+    centre-of-mass computation.  Origins are followed through every reaching definition."""
+
+    def __init__(self, repo, f, coord_tags: set, array_tags: set, local_coords: bool):
+        self.repo, self.f = repo, f
+        self.df = DataFlow(f.node)
+        self.coord_tags, self.array_tags, self.local_coords = coord_tags, array_tags, local_coords
+
+    # ---- value origins ------------------------------------------------------------------------------------
+    def flows(self, e: ast.AST, at: int, seen=None) -> set:
+        """Origins an expression's VALUE is computed from: 'param:<name>', 'self.<attr>', 'unknown'.  Modules
+        (np, get_array_module(...)) and dtype / meta arguments carry no array data."""
+        seen = set() if seen is None else seen
+        if (id(e), at) in seen:
+            return set()
+        seen.add((id(e), at))
+        df = self.df
+        if isinstance(e, ast.Name):
+            out = set()
+            for d in df.reaching(at, e.id):
+                if d.kind == "param":
+                    out.add(f"param:{e.id}")
+                elif d.kind in ("import", "def"):
+                    pass
+                elif d.kind == "aug" and isinstance(d.value, ast.AugAssign):
+                    out |= self.flows(d.value.value, d.node, seen) | self.flows(ast.Name(id=e.id, ctx=ast.Load()), d.node, seen)
+                elif d.value is not None:
+                    out |= self.flows(d.value, d.node, seen)
+                    if not d.strong:
+                        out |= self.flows(ast.Name(id=e.id, ctx=ast.Load()), d.node, seen)
+                else:
+                    out.add("unknown")
+            return out
+        if isinstance(e, ast.Attribute):
+            d = dotted(e)
+            if d and d.startswith("self."):
+                head = ".".join(d.split(".")[:2])
+                local = [x for x in df.reaching(at, head) if x.value is not None]
+                if local:
+                    out = set()
+                    for x in local:
+                        out |= self.flows(x.value, x.node, seen)
+                    return out
+                return {head}
+            return self.flows(e.value, at, seen)
+        if isinstance(e, ast.Call):
+            if last_attr(e) == "get_array_module" or dotted(e.func) == "get_array_module":
+                return set()
+            out = set()
+            if isinstance(e.func, ast.Attribute):
+                out |= self.flows(e.func.value, at, seen)
+                if e.func.attr in ("astype", "view"):
+                    return out
+            for a in e.args:
+                out |= self.flows(a, at, seen)
+            for k in e.keywords:
+                if k.arg not in ("dtype", "meta"):
+                    out |= self.flows(k.value, at, seen)
+            return out
+        if isinstance(e, ast.Constant):
+            return set()
+        if isinstance(e, (ast.ListComp, ast.SetComp, ast.GeneratorExp, ast.DictComp, ast.Lambda)):
+            bound = {n.id for g in getattr(e, "generators", []) for n in ast.walk(g.target) if isinstance(n, ast.Name)}
+            out = set()
+            for n in ast.walk(e):
+                if isinstance(n, ast.Name) and isinstance(n.ctx, ast.Load) and n.id not in bound:
+                    out |= self.flows(n, at, seen)
+                elif isinstance(n, ast.Attribute) and (dotted(n) or "").startswith("self."):
+                    out |= self.flows(n, at, seen)
+            return out
+        out = set()
+        for c in ast.iter_child_nodes(e):
+            if isinstance(c, ast.expr):
+                out |= self.flows(c, at, seen)
+        return out
+
+    def plain(self, e: ast.AST, at: int, depth: int = 0) -> bool:
+        """is `e` the unmodified intensities (the array itself, through aliases and dtype-less asarray)?"""
+        if depth > 8:
+            return False
+        if isinstance(e, ast.Attribute):
+            return dotted(e) in self.array_tags
+        if isinstance(e, ast.Name):
+            rd = self.df.reaching(at, e.id)
+            return bool(rd) and all(
+                (d.kind == "param" and f"param:{e.id}" in self.array_tags)
+                or (d.kind == "assign" and d.strong and d.value is not None and self.plain(d.value, d.node, depth + 1))
+                for d in rd)
+        if isinstance(e, ast.Call) and last_attr(e) in _AS_ARRAY and len(e.args) == 1 and not any(
+                k.arg == "dtype" for k in e.keywords):
+            return self.plain(e.args[0], at, depth + 1)
+        return False
+
+    def role(self, operand, at: int) -> str:
+        if operand is None:
+            return "coordinates" if self.local_coords else "derived"
+        tags = self.flows(operand, at)
+        if "unknown" in tags:
+            raise AnalysisError(f"{self.f.qualname}: cannot tell what `{norm_text(operand)[:50]}` is computed from")
+        if tags & self.coord_tags:
+            return "product" if tags & self.array_tags else "coordinates"
+        if tags & self.array_tags:
+            return "intensities" if self.plain(operand, at) else "derived"
+        return "coordinates" if self.local_coords else "derived"
+
+    # ---- dtype origins ------------------------------------------------------------------------------------
+    def _self_dtype_is_array_dtype(self) -> bool:
+        try:
+            c = self.repo.cls(MEAS, DP)
+        except AnalysisError:
+            return False
+        g = c.find_method("dtype")
+        if g is None:
+            return False
+        rets = [r for r in walk_no_nested(g.node) if isinstance(r, ast.Return) and r.value is not None]
+        return bool(rets) and all(dotted(r.value) in ("self.array.dtype", "self._array.dtype") for r in rets)
+
+    def dtype_kinds(self, e: ast.AST, at: int, depth: int = 0) -> set:
+        """{'configured', 'floating', 'integer', 'intensities', 'coordinates', 'unknown'}"""
+        if depth > 12:
+            return {"unknown"}
+        df = self.df
+        if isinstance(e, ast.Call):
+            name = (dotted(e.func) or "").split(".")[-1]
+            if name == "get_dtype":
+                return {"configured"}
+            if name == "dtype" and len(e.args) == 1:
+                return self.dtype_kinds(e.args[0], at, depth + 1)
+            if name in _PROMOTING and e.args:
+                parts = []
+                for a in e.args:
+                    for x in (a.elts if isinstance(a, (ast.List, ast.Tuple)) else [a]):
+                        parts.append(self._array_or_dtype(x, at, depth + 1))
+                if any(p <= {"configured", "floating", "coordinates"} for p in parts):
+                    return {"floating"}  # promotion with a floating type is floating
+                return set().union(*parts)
+            return {"unknown"}
+        if isinstance(e, ast.Constant):
+            if isinstance(e.value, str):
+                nm = e.value.lstrip("<>=|")
+                return {"floating"} if nm in _FLOAT_NAMES | _FLOAT_CODES else {"integer"} if nm in _INT_NAMES else {"unknown"}
+            return {"unknown"}
+        if isinstance(e, ast.IfExp):
+            return self.dtype_kinds(e.body, at, depth + 1) | self.dtype_kinds(e.orelse, at, depth + 1)
+        if isinstance(e, ast.Attribute) and e.attr == "dtype":
+            if dotted(e) == "self.dtype":
+                if not self._self_dtype_is_array_dtype():
+                    raise AnalysisError(f"{self.f.qualname}: `self.dtype` is not the dtype of the measurement's array")
+                return {"intensities"}
+            return self._array_kind(e.value, at)
+        if isinstance(e, ast.Name) and df.reaching(at, e.id):
+            out = set()
+            for d in df.reaching(at, e.id):
+                if d.kind in ("assign", "walrus") and d.strong and d.value is not None:
+                    out |= self.dtype_kinds(d.value, d.node, depth + 1)
+                else:
+                    out.add("unknown")
+            return out
+        if isinstance(e, (ast.Attribute, ast.Name)):
+            nm = (dotted(e) or "").split(".")[-1]
+            return {"floating"} if nm in _FLOAT_NAMES else {"integer"} if nm in _INT_NAMES else {"unknown"}
+        return {"unknown"}
+
+    def _array_kind(self, base: ast.AST, at: int) -> set:
+        """dtype kind of an ARRAY expression by what it is made of"""
+        tags = self.flows(base, at)
+        if "unknown" in tags:
+            return {"unknown"}
+        if tags & self.coord_tags:
+            return {"coordinates"}  # a product with the floating coordinates is promoted to a floating type
+        if tags & self.array_tags:
+            return {"intensities"}
+        return {"coordinates"} if self.local_coords and tags else {"unknown"}
+
+    def _array_or_dtype(self, e: ast.AST, at: int, depth: int) -> set:
+        k = self.dtype_kinds(e, at, depth)
+        if "unknown" not in k:
+            return k
+        return self._array_kind(e, at)
+
+    # ---- the casts ------------------------------------------------------------------------------------------
+    def casts(self):
+        """(call, operand or None, dtype expression) of every operation that fixes the dtype of its result"""
+        for c in walk_no_nested(self.f.node):
+            if not isinstance(c, ast.Call):
+                continue
+            name = last_attr(c) or (dotted(c.func) or "").split(".")[-1]
+            if name in _DECLARING:
+                continue
+            dkw = next((k.value for k in c.keywords if k.arg == "dtype"), None)
+            if isinstance(c.func, ast.Attribute) and name in ("astype", "view"):
+                dt = c.args[0] if c.args else dkw
+                if dt is not None:
+                    yield c, c.func.value, dt
+                continue
+            if name in _AS_ARRAY and dkw is None and len(c.args) > 1:
+                dkw = c.args[1]
+            if dkw is None:
+                continue
+            if isinstance(dkw, ast.Constant) and dkw.value is None:
+                continue
+            operand = None
+            if isinstance(c.func, ast.Attribute) and self.flows(c.func.value, self._at(c)):
+                operand = c.func.value  # method form: x.sum(dtype=...)
+            elif c.args and name not in ("linspace", "arange", "zeros", "ones", "empty", "full", "eye", "identity"):
+                operand = c.args[0]
+            yield c, operand, dkw
+
+    def _at(self, c: ast.AST) -> int:
+        return self.df.cfg.node_of(_stmt_of(self.f, c)).idx
+
+
+def _floating_guard(f, call) -> "bool | None":
+    """None: the cast is not under a test on a dtype; True: it only runs when a dtype test says 'floating';
+    False: it is under a dtype test this analysis cannot read."""
+    from .c15 import _guards_of
+
+    tests = [(t, arm) for t, arm in _guards_of(f.node, call) if any(
+        isinstance(n, ast.Attribute) and n.attr in ("dtype", "kind") or isinstance(n, ast.Call) and (
+            last_attr(n) or (dotted(n.func) or "")) in ("issubdtype", "isrealobj", "iscomplexobj", "can_cast")
+        for n in ast.walk(t.test))]
+    if not tests:
+        return None
+    for t, arm in tests:
+        c = t.test
+        if arm and isinstance(c, ast.Call) and (last_attr(c) or dotted(c.func)) == "issubdtype" and len(c.args) == 2 and (
+                dotted(c.args[1]) or "").split(".")[-1] in ("floating", "inexact", "complexfloating"):
+            return True
+    return False
+
+
+_ROLE_TEXT = {"coordinates": "the coordinate vector", "product": "the intensities weighted with the coordinates",
+              "derived": "a quantity computed from the intensities", "intensities": "the intensities"}
+_BAD_TEXT = {"intensities": "the dtype of the measurement's own array", "integer": "an integer dtype"}
+
+
+def _coord_dtype(ctx, repo) -> None:
+    com = repo.method(MEAS, DP, "_com")
+    ctx.require(len(com.positional_params) == 3, f"{com.qualname}: signature (array, x, y) expected")
+    A, X, Y = com.positional_params
+    sites = [
+        (repo.method(MEAS, DP, "center_of_mass"), {"self.coordinates", "self.angular_coordinates"}, set(_ARRAY_ATTRS), False),
+        (com, {f"param:{X}", f"param:{Y}"}, {f"param:{A}"}, False),
+        (repo.method(MEAS, DP, "coordinates"), set(), set(_ARRAY_ATTRS), True),
+        (repo.method(MEAS, DP, "angular_coordinates"), set(), set(_ARRAY_ATTRS), True),
+        (repo.method("abtem.core.axes", "LinearAxis", "coordinates"), set(), set(), True),
+    ]
+    for f, ctags, atags, local in sites:
+        an = _CoordDtype(repo, f, ctags, atags, local)
+        count: dict = {}
+        n = 0
+        for call, operand, dt in an.casts():
+            at = an._at(call)
+            role = an.role(operand, at)
+            kinds = an.dtype_kinds(dt, at)
+            if "unknown" in kinds:
+                raise AnalysisError(f"{f.qualname}: cannot tell where the dtype of `{norm_text(call)[:60]}` comes from")
+            if role == "intensities":
+                bad = sorted(kinds & {"integer"})
+            else:
+                bad = sorted(kinds & {"intensities", "integer"})
+            if bad:
+                g = _floating_guard(f, call)
+                if g is True:
+                    bad = []
+                elif g is False:
+                    raise AnalysisError(f"{f.qualname}: `{norm_text(call)[:60]}` sets a dtype under a test on a dtype that "
+                                        "is not `issubdtype(..., floating)`; such guards are not modelled")
+            count[role] = count.get(role, 0) + 1
+            n += 1
+            construct = f"{f.qualname}:dtype of {role}" + (f" #{count[role]}" if count[role] > 1 else "")
+            what = _ROLE_TEXT[role]
+            ctx.check(not bad, "R-COORDDTYPE", construct, f.loc(call),
+                      f"`{norm_text(call)[:60]}` gives {what} a {'/'.join(sorted(kinds))} dtype",
+                      f"`{norm_text(call)[:70]}` casts {what} to " + " / ".join(_BAD_TEXT[b] for b in bad) +
+                      ": diffraction patterns may hold integer detector counts (int32, uint16), and then the 1/Å or mrad "
+                      "coordinates (or the weighted sums) are truncated to integers, so the centre of mass of a single "
+                      "bright pixel is no longer that pixel's coordinate", key_detail=f"cast-{role}")
+        if n == 0:
+            ctx.ok("R-COORDDTYPE", f"{f.qualname}:dtype", f.where,
+                   "no operation fixes a dtype: coordinates and weighted sums keep the floating dtype numpy promotes to")
+
+
+def run(ctx) -> None:  # noqa: F811
+    from ..rules import deferred
+
+    ctx.rule("R-COORDDTYPE", "in the centre-of-mass computation (DiffractionPatterns.center_of_mass, _com, the coordinate "
+             "properties coordinates / angular_coordinates and LinearAxis.coordinates they are built from) every operation "
+             "that fixes a dtype (asarray/array/astype/view with a dtype, a dtype= argument of a reduction or of "
+             "linspace/arange) and acts on a coordinate vector, on the intensities weighted with the coordinates or on a "
+             "quantity computed from the intensities uses a dtype that is floating for EVERY measurement: get_dtype(...), a "
+             "floating literal, or the dtype of the coordinates themselves.  The origin of the dtype is followed through "
+             "all reaching definitions; a dtype that originates from the measurement's own array (self.dtype, "
+             "self.array.dtype, array.dtype) or an integer type truncates the 1/Å / mrad coordinates for integer-typed "
+             "patterns (detector counts), so the result is not the intensity-weighted mean coordinate.  Only the "
+             "unmodified intensities may be cast to their own dtype")
+    deferred.run(ctx, lambda: _coord_dtype(ctx, ctx.repo), _inner_run_c40e)
